@@ -267,6 +267,14 @@ def grpcKindCode (kind : String) (arg : Nat) : Option Nat :=
   | "big" => some 8
   | _ => none
 
+/-- `Unavailable` (503) / `DeadlineExceeded` (504) samples the model does not predict: when the machine runs out of
+local ports (many checks run at once) a gRPC client cannot connect and the call ends this way without the target
+having been asked. Such a run is judged by the Spec (no abort, sample counts) but not compared with the model. -/
+def transportNoise (modelObs impl : String) : Bool :=
+  let has (o : String) (code : String) : Bool :=
+    ((getS (parseKV o) "s").splitOn ",").any fun e => match e.splitOn ":" with | [_, p, _] => p == code | _ => false
+  (has impl "503" && !has modelObs "503") || (has impl "504" && !has modelObs "504")
+
 def handleRun (kv : List (String × String)) (impl : String) : String × String :=
   let (res, n) := implRes impl
   let noCfg : AutoTagCfg := { enabled := false, uriElements := 2, noTagOnly := true }
@@ -345,11 +353,15 @@ def handleRun (kv : List (String × String)) (impl : String) : String × String 
       let shots := replicate ((getN? kv "m").getD 1) cycle
       let run := instanceRun (shots.map GunShot.run)
       let v := Spec.C19.judgeRun false shots.length shots.length shots.length res n
-      if (lookup kv "stopafter").isSome then ("-", v) else (fmtRun run "panic:unexpected", v)
+      let mo := fmtRun run "panic:unexpected"
+      if (lookup kv "stopafter").isSome || transportNoise mo impl then ("-", v) else (mo, v)
   | "grpc/scenario" =>
     let parsed := (splitList (getS kv "calls") ";").mapM fun c =>
       match c.splitOn "," with
-      | [tag, kind, code, pp] => do
+      | [tag, kind, code, pp0] => do
+        -- a trailing `U`: the payload is rendered from the previous call's response (a missing field renders as text:
+        -- the call is made all the same)
+        let pp := if pp0 == "U" then "-" else if pp0.endsWith "+U" then (pp0.dropEnd 2).toString else pp0
         let cd ← code.toNat?
         let asserts : List GrpcAssert ←
           if pp == "-" then some []
@@ -373,7 +385,8 @@ def handleRun (kv : List (String × String)) (impl : String) : String × String 
       let shotsN := (getN? kv "n").getD 1
       let shots := List.replicate shotsN (GunShot.grpcScenario "gscn" calls)
       let run := instanceRun (shots.map GunShot.run)
-      (fmtRun run "panic:unexpected", Spec.C19.judgeRun false shotsN shotsN (shotsN * calls.length) res n)
+      let mo := fmtRun run "panic:unexpected"
+      (if transportNoise mo impl then "-" else mo, Spec.C19.judgeRun false shotsN shotsN (shotsN * calls.length) res n)
   | _ => ("-", "fail:driver:unknown gun")
 
 def handle : Handler := fun input impl =>
